@@ -1,17 +1,17 @@
 #!/bin/bash
-# development helper: take the deliverables of a round-4 seed sub-agent (/tmp/seed4/<prop>/out) into seeded/<prop>-<9+N>/,
+# development helper: take the deliverables of a seed sub-agent (${SRC:-/tmp/seed4}/<prop>/out) into seeded/<prop>-<${OFFSET:-9}+N>/,
 # remove its worktree, and evaluate the changes (repository tests + the property's quick check) in scratch copies.
 for prop in "$@"; do
-  src=/tmp/seed4/$prop/out; ids=()
+  src=${SRC:-/tmp/seed4}/$prop/out; ids=()
   for n in 1 2 3; do
     [ -s $src/patch-$n.diff ] || continue
-    id=$prop-$((9+n)); mkdir -p /verif/seeded/$id
+    id=$prop-$((${OFFSET:-9}+n)); mkdir -p /verif/seeded/$id
     cp $src/patch-$n.diff /verif/seeded/$id/patch.diff
     cp $src/demo-$n.md /verif/seeded/$id/demo.md 2>/dev/null
     for f in $src/demo-$n-* $src/demo$n*; do [ -f "$f" ] && cp "$f" /verif/seeded/$id/ ; done 2>/dev/null
     ids+=($id)
   done
-  git -C /repo worktree remove --force /tmp/seed4/$prop 2>/dev/null; rm -rf /tmp/seed4/$prop
+  git -C /repo worktree remove --force ${SRC:-/tmp/seed4}/$prop 2>/dev/null; rm -rf ${SRC:-/tmp/seed4}/$prop
   echo "collected ${ids[*]}"
   all+=("${ids[@]}")
 done
